@@ -777,6 +777,7 @@ func zzC02eResume() {
 	oldAlias := u.idAlias
 	newAlias := vf.U32("resume.alias")
 	conflicts := vf.Choose("conflicts.first", 2)
+	conflictAlias := vf.U32("alias.in.the.conflict.response")
 	final := vf.Choose("final.code", 2) // 0 succeeded, 1 stream not found
 	var reqs []*message.UpstreamResumeRequest
 	// a fresh wire connection (after the reconnect) answering the resume request
@@ -793,7 +794,11 @@ func zzC02eResume() {
 			} else if final == 1 {
 				code = message.ResultCodeStreamNotFound
 			}
-			wire.ZZDeliverRequest(wc2, &message.UpstreamResumeResponse{RequestID: r.RequestID, AssignedStreamIDAlias: newAlias, ResultCode: code})
+			alias := newAlias
+			if code == message.ResultCodeResumeRequestConflict {
+				alias = conflictAlias // what a refusing broker puts there is arbitrary (usually 0)
+			}
+			wire.ZZDeliverRequest(wc2, &message.UpstreamResumeResponse{RequestID: r.RequestID, AssignedStreamIDAlias: alias, ResultCode: code})
 		case *message.UpstreamCloseRequest:
 			wire.ZZDeliverRequest(wc2, &message.UpstreamCloseResponse{RequestID: r.RequestID, ResultCode: message.ResultCodeSucceeded})
 		}
